@@ -80,6 +80,16 @@ Theorem C13_shift_typeDefFirst_whole_file : forall k c s f, snd (tdf_run c s (ma
 Proof. exact tdf_shift. Qed.
 Print Assumptions C13_shift_typeDefFirst_whole_file.
 
+(* The laws in evaluated form. [predict] assembles, from per-declaration runs on the ORIGINAL declarations, what the walker must
+   report on a transformed file whose declarations are tagged "padding" or "copy of original #i at another offset" (each such claim is
+   checked by decl_eqb against shift_decl). The generated files work/C13/cases_law_*.v evaluate it on the converted real files the
+   metamorphic oracle writes; this theorem says the evaluated prediction IS the walker's result on the transformed file. *)
+Theorem C13_predict_sound : forall (S : Type) (on_decl : S -> decl -> S * list warning) (Inv : S -> Prop),
+  decl_local on_decl Inv -> equivariant on_decl shift_decl -> forall s0, Inv s0 ->
+  forall ds ds' tags ws, predict on_decl s0 ds ds' tags = Some ws -> snd (walk on_decl s0 ds') = ws.
+Proof. exact @predict_sound. Qed.
+Print Assumptions C13_predict_sound.
+
 (* why typeDefFirst is exempt: its per-declaration step is not local (file-level subject) *)
 Theorem C13_typeDefFirst_not_local_refuted :
   snd (tdf_decl ["T"] (DType 7 ["T"])) <> snd (tdf_decl [] (DType 7 ["T"])).
